@@ -33,16 +33,19 @@ vars == <<shape, signer, epk, mut, stage>>
 AddrSeqs == {<<>>, <<"a1">>, <<"a1", "a2">>}
 EpEntries == [id : Ids, addrs : {<<>>, <<"a1">>}, md : {"m1"}]
 EpSeqs == IF SLIM THEN [1..MaxEps -> [id : Ids, addrs : {<<>>}, md : {"m1"}]] ELSE UNION {[1..n -> EpEntries] : n \in 0..MaxEps}
+(* fmt: the form of the advertisement's own signature payload -- "current" (the hash of the signed values) or "old" (the
+   deprecated form VerifySignature still accepts: the values themselves under a multihash header); whichever it is, everything
+   else is verified the same way                                                                                           *)
 Shapes == IF SLIM
           THEN [prev : {"A"}, ents : {"E1"}, prov : {Prov}, addrs : {<<>>}, md : {"m1"}, rm : BOOLEAN,
-                hasExt : {TRUE}, ctx : {"c1"}, ov : BOOLEAN, eps : EpSeqs \cup {<<>>}]
+                hasExt : {TRUE}, ctx : {"c1"}, ov : BOOLEAN, eps : EpSeqs \cup {<<>>}, fmt : {"current", "old"}]
           ELSE [prev : {"none", "A"}, ents : {"noents", "E1"}, prov : {Prov}, addrs : AddrSeqs, md : {"m1"}, rm : BOOLEAN,
-                hasExt : BOOLEAN, ctx : {"c0", "c1"}, ov : BOOLEAN, eps : EpSeqs]      \* "c0" = empty context ID
+                hasExt : BOOLEAN, ctx : {"c0", "c1"}, ov : BOOLEAN, eps : EpSeqs, fmt : {"current"}]      \* "c0" = empty context ID
 (* A removal with extended providers: SignWithExtendedProviders refuses to make one, but the advertisement signature does not
    cover the list, so entries (signed while it was not a removal) can be attached to a removal signed with Sign.               *)
 WellShaped(s) == (~s.hasExt => s.eps = <<>> /\ ~s.ov)
 
-AdPl(ad) == <<"ad", ad.prev, ad.ents, ad.prov, ad.addrs, ad.md, ad.rm>>
+AdPl(ad) == <<"ad", ad.fmt, ad.prev, ad.ents, ad.prov, ad.addrs, ad.md, ad.rm>>
 EpPl(ad, p) == <<"ep", ad.prev, ad.ents, ad.prov, ad.ctx, p.id, p.addrs, p.md, ad.ov>>
 Env(typ, k, pl) == [typ |-> typ, key |-> k, pl |-> pl, sby |-> k, spl |-> pl]
 Opens(e, typ) == e.typ = typ /\ e.sby = e.key /\ e.spl = e.pl
